@@ -5,6 +5,7 @@
   correspondence run over histories); `Spec.assign` is the property.
 -/
 import PdbVerif.Proofs.TableAssign
+import PdbVerif.Proofs.TableChain
 
 set_option linter.unusedVariables false
 set_option linter.unusedSimpArgs false
@@ -134,16 +135,26 @@ theorem add_column_spec (db : Db) (hS : Shape db) (name coltype : Py.Str) (value
 theorem stored_equal_in_value (d : Decl) (v w : Val) (h : Spec.coerce d v = some w) : storeVal d v = w :=
   storeVal_of_coerce d v w h
 
-/-- `_fix_chainID` (partial: the frame half of `fix_chainID_spec`): only the chainID attribute of the table
-    `ATOM` can change; rows, row order, every other attribute and every other table stay.
-    Missing for the full statement `fixChainID db = (db.setTable "ATOM" (Spec.fixChains T), ok)`: the lemma that
-    the `newID` list filled chain by chain equals the rank of each chain among the sorted distinct identifiers
-    (compared on every history of the correspondence run). -/
-theorem fix_chainID_spec_partial (db : Db) (hS : Shape db) (j p : Nat) (c : Col)
+/-- **`_fix_chainID`**: the chains of table `ATOM` are renamed A, B, C, … by the rank of their identifier among the
+    sorted distinct identifiers (`Spec.fixChains`); rows, row order, every other attribute and every other table
+    are untouched (more than 26 chains: the source exits; not covered) -/
+theorem fix_chainID_spec (db : Db) (hwf : WF db) (hT : TabsOK db) (tab : Tab) (htab : findTab db defaultTable = some tab)
+    (hnm : db.nModel = 0) (h26 : (sortDedup strLt (tab.rows.map (fun r => r.atom.chainID))).length ≤ 26) :
+    Model.step db .fixChainID = (db.setTable defaultTable (Spec.fixChains tab.rows), .ok ()) :=
+  fixChainID_eq db hwf hT tab htab hnm h26
+
+/-- …and its frame, without any side condition: only the chainID attribute of the table `ATOM` can change -/
+theorem fix_chainID_frame (db : Db) (hS : Shape db) (j p : Nat) (c : Col)
     (h : ¬ (Addresses db j defaultTable ∧ c = .std .chainID)) :
     cellAt (Model.step db .fixChainID).1 j p c = cellAt db j p c ∧
     skeleton (Model.step db .fixChainID).1 = skeleton db :=
   ⟨fixChainID_frame db hS j p c h, (fixChainID_keeps db hS).2.1⟩
+
+/- the value carrier (list, tuple, float64 / float32 / int64 / int32 ndarray, NumPy scalar, str array) is not
+    visible to the model: `Op` carries the values themselves (`Tbl.Val`), so "read back equal in value whatever
+    carried them" is, on the model side, `stored_equal_in_value`; that the real carriers are converted to these
+    values (`_to_sql_value`, ndarray iteration) is a dimension of the correspondence run, not a theorem
+    (`values_type_independent_partial` of the design: no Lean statement is claimed for it). -/
 
 /-- non-vacuity of `update_spec` / `frame`: a concrete database satisfies the invariants, and a concrete
     assignment is defined -/
